@@ -378,6 +378,27 @@ impl Check for C05 {
                             }
                         }
                     }
+                    // a ramp in a chunk of 32 frames: on a resampler constructed for 32 frames, and
+                    // on resamplers constructed for 64 / 160 frames that were told set_chunk_size(32)
+                    // first (same calls, same chunks, same ratio schedule)
+                    if interp != Interp::Nearest {
+                        for ramp_to in [1.25, 0.8] {
+                            let mut c0 = mk(kind, 32);
+                            c0.max_rel = 2.0;
+                            let p0 = vec![Op::P, Op::R(ramp_to, true), Op::P, Op::P, Op::R(1.0, true)];
+                            let r0 = drive_prefixed(&c0, &p0, &vec![], 700)?;
+                            if let Some(e) = r0.error {
+                                return Err(format!("reference stream with a ramp failed: {}", e));
+                            }
+                            for big in [64usize, 160] {
+                                let mut c = mk(kind, big);
+                                c.max_rel = 2.0;
+                                let mut p = vec![Op::C(32)];
+                                p.extend_from_slice(&p0);
+                                c05_compare_p(&mut acc, &c, &p, &vec![], &r0.out, tol, 700, journal)?;
+                            }
+                        }
+                    }
                     // setter calls that cancel each other before any frame is processed leave the
                     // constant ratio schedule: the stream must be the reference stream
                     if interp != Interp::Nearest {
